@@ -31,7 +31,10 @@ META = dict(
          "Partitions, WritablePartitions, Leader, Replicas, InSyncReplicas, OfflineReplicas, Brokers and Controller are "
          "read for every topic/partition and TLC compares them with the fold of the served responses. In the concurrent "
          "family 4 reader goroutines hammer the read APIs while one refresher runs; each read must equal the view before "
-         "or after that refresh.",
+         "or after that refresh. Concurrent refreshers (spec/MetadataRefreshers.tla, every interleaving model-checked): 2 and 3 "
+         "goroutines call RefreshMetadata at once with Metadata.Retry.Max 0 and 1 over every failing subset of the candidates; "
+         "the failure of the head candidate is released only when all callers have a request in flight on it; every caller "
+         "must succeed when a live seed or registered broker answers.",
     note="bounded universe; reads during the sequential families happen with every endpoint reachable; "
          "Metadata.Retry.Max=1 (with 0 a dead seed is not retried in the same refresh); unreachability is injected at the "
          "Net.Proxy.Dialer boundary (refused dial, reset mid-write, EOF, garbage bytes, wrong correlation id, trailing bytes) and by "
@@ -78,18 +81,23 @@ def run(ctx):
                 ("Metadata.gen.reach3.cfg", "num=250", 60, 250),
                 ("Metadata.gen.conc.cfg", "num=30", 40, 30)]
 
+    # concurrent refreshers (spec/MetadataRefreshers.tla): 2 and 3 callers, Metadata.Retry.Max 0 and 1
+    for tag in ("n2r0", "n2r1", "n3r0", "n3r1"):
+        mc.append(("MetadataRefreshers.mc.%s.cfg" % tag, "cref-" + tag))
+        gens.append(("MetadataRefreshers.gen.%s.cfg" % tag, None, None, None))
+
     def do_mc(item):
         cfg, fam = item
-        return fam, cfg, ctx.tlc("Metadata", cfg, workers=4, timeout=2400, name="mc-" + fam)
+        return fam, cfg, ctx.tlc(cfg.split(".")[0], cfg, workers=4, timeout=2400, name="mc-" + fam)
 
     def do_gen(item):
         cfg, sim, depth, cap = item
         if sim:
-            r = ctx.tlc("Metadata", cfg, workers=1, timeout=900, simulate=sim, depth=depth, seed=ctx.seed, name="gen")
+            r = ctx.tlc(cfg.split(".")[0], cfg, workers=1, timeout=900, simulate=sim, depth=depth, seed=ctx.seed, name="gen")
             if r.error and "CASE" not in r.out:
                 ctx.need(r, "case generation " + cfg)
         else:
-            r = ctx.need(ctx.tlc("Metadata", cfg, workers=2, timeout=900, name="gen"), "case generation " + cfg)
+            r = ctx.need(ctx.tlc(cfg.split(".")[0], cfg, workers=2, timeout=900, name="gen"), "case generation " + cfg)
         cs = _cases(r)
         total = len(cs)
         if cap and len(cs) > cap:
@@ -101,7 +109,7 @@ def run(ctx):
                 cs = cs[:cap]
         return cfg, sim, r, cs, total
 
-    with concurrent.futures.ThreadPoolExecutor(max_workers=9) as ex:
+    with concurrent.futures.ThreadPoolExecutor(max_workers=18) as ex:
         fm = [ex.submit(do_mc, m) for m in mc]
         fg = [ex.submit(do_gen, g) for g in gens]
         gen_res = [f.result() for f in fg]
